@@ -6,7 +6,17 @@
 //! Scenario text: `<parallelism>;<task>;<task>...` with task =
 //! `<chunks><flags>`: chunks = number of output chunks 0..3, flags: `h` =
 //! hide_progress, `f` = command fails, `i` = interrupted, `m` = deps=msvc (one
-//! note line is mixed into the output).
+//! note line is mixed into the output), `d` = the command succeeds but leaves a
+//! depfile that cannot be parsed (n2 turns the step into a failure after the
+//! process is gone).
+//!
+//! What is demanded is what C04/C16 state, not how Runner keeps its books: the
+//! number of commands *executing* (inside run_command) never exceeds the
+//! parallelism; every started task is returned by wait exactly once with its
+//! bytes, termination and dependencies; last-line updates arrive in order,
+//! before the completion, only for running, non-hidden tasks; the collector
+//! loop `while can_start_more {start}; if !is_running {break}; wait` neither
+//! deadlocks nor ends with tasks unreturned.
 
 use super::*;
 use crate::densemap::Index as _;
@@ -21,6 +31,15 @@ pub struct TaskScript {
     pub fail: bool,
     pub interrupt: bool,
     pub msvc: bool,
+    pub bad_depfile: bool,
+}
+
+static EXECUTING: ::std::sync::atomic::AtomicUsize = ::std::sync::atomic::AtomicUsize::new(0);
+static PARALLELISM: ::std::sync::atomic::AtomicUsize = ::std::sync::atomic::AtomicUsize::new(0);
+static OVER: ::std::sync::Mutex<Option<String>> = ::std::sync::Mutex::new(None);
+
+fn bad_depfile_path() -> String {
+    format!("/dev/shm/loomh-bad-depfile.{}.d", ::std::process::id())
 }
 
 #[derive(Clone)]
@@ -42,6 +61,7 @@ impl Scenario {
                 fail: t.contains('f'),
                 interrupt: t.contains('i'),
                 msvc: t.contains('m'),
+                bad_depfile: t.contains('d'),
             });
         }
         Some(Scenario { parallelism, tasks })
@@ -63,12 +83,22 @@ impl crate::verif::Hooks for H {
         let f: Vec<&str> = cmdline.split(' ').collect();
         let task: usize = f[0].parse().unwrap();
         let chunks: usize = f[1].parse().unwrap();
+        use ::std::sync::atomic::Ordering::SeqCst;
+        let now = EXECUTING.fetch_add(1, SeqCst) + 1;
+        let par = PARALLELISM.load(SeqCst);
+        if now > par {
+            let mut g = OVER.lock().unwrap_or_else(|e| e.into_inner());
+            if g.is_none() {
+                *g = Some(format!("{} commands executing at once with parallelism {} (task {} just started)", now, par, task));
+            }
+        }
         for c in 0..chunks {
             if f[3] == "m" && c == 0 {
                 output(b"Note: including file: hdr.h\n");
             }
             output(chunk_text(task, c).as_bytes());
         }
+        EXECUTING.fetch_sub(1, SeqCst);
         Some(Ok(match f[2] {
             "f" => Termination::Failure,
             "i" => Termination::Interrupted,
@@ -78,7 +108,15 @@ impl crate::verif::Hooks for H {
 }
 
 pub fn install_hooks() {
+    ::std::fs::write(bad_depfile_path(), "garbage text without a colon\n").expect("write depfile");
     crate::verif::install(Box::new(H));
+}
+
+fn check_over() {
+    let over = OVER.lock().unwrap_or_else(|e| e.into_inner()).take();
+    if let Some(d) = over {
+        fail("commands-over-parallelism", d);
+    }
 }
 
 fn make_build(i: usize, t: &TaskScript) -> Build {
@@ -113,18 +151,23 @@ fn make_build(i: usize, t: &TaskScript) -> Build {
     ));
     b.hide_progress = t.hide;
     b.parse_showincludes = t.msvc;
+    if t.bad_depfile {
+        b.depfile = Some(bad_depfile_path());
+    }
     b
 }
 
 /// One execution (called once per interleaving by loom).
 pub fn body(s: &Scenario) {
     let n = s.tasks.len();
+    EXECUTING.store(0, ::std::sync::atomic::Ordering::SeqCst);
+    PARALLELISM.store(s.parallelism, ::std::sync::atomic::Ordering::SeqCst);
+    *OVER.lock().unwrap_or_else(|e| e.into_inner()) = None;
     let builds: Vec<Build> = s.tasks.iter().enumerate().map(|(i, t)| make_build(i, t)).collect();
     let mut runner = Runner::new(s.parallelism);
     let mut next = 0usize;
     let mut live: Vec<(usize, usize)> = Vec::new(); // (task, logical start time)
     let mut clock = 0usize;
-    let mut spans: Vec<(usize, usize, usize, usize)> = Vec::new(); // (start, end, tid, task)
     let mut returned: Vec<bool> = vec![false; n];
     let mut lines_seen: Vec<usize> = vec![0; n];
     let mut trace = String::new();
@@ -134,21 +177,13 @@ pub fn body(s: &Scenario) {
             clock += 1;
             live.push((next, clock));
             next += 1;
-            if live.len() > s.parallelism {
-                fail("runner-over-parallelism", format!("{} tasks live with parallelism {}", live.len(), s.parallelism));
-            }
-            if runner.running != live.len() {
-                fail("runner-running-count", format!("Runner.running = {} but {} tasks are live", runner.running, live.len()));
-            }
         }
         if !runner.is_running() {
-            if !live.is_empty() {
-                fail("runner-running-count", format!("is_running() false with {} tasks live", live.len()));
-            }
+            // (tasks still unreturned here are reported as task-lost below)
             break;
         }
         if live.is_empty() {
-            fail("runner-running-count", "is_running() true with nothing live".to_string());
+            fail("waiting-for-nothing", "is_running() is true although every started task has been returned: wait would block forever".to_string());
         }
         let mut outputs: Vec<(usize, Vec<u8>)> = Vec::new();
         let task = runner.wait(|bid, line| outputs.push((bid.index(), line)));
@@ -180,6 +215,7 @@ pub fn body(s: &Scenario) {
             lines_seen[bid] += 1;
             trace.push_str(&format!("o{} ", bid));
         }
+        check_over();
         let bid = task.buildid.index();
         if bid >= n || returned[bid] || !live.iter().any(|l| l.0 == bid) {
             fail("done-twice-or-unknown", format!("wait returned task {} which is not running", bid));
@@ -196,21 +232,28 @@ pub fn body(s: &Scenario) {
         for c in 0..t.chunks {
             full.extend_from_slice(chunk_text(bid, c).as_bytes());
         }
-        if task.result.output != full {
+        let bad = t.bad_depfile && !t.fail && !t.interrupt;
+        if bad {
+            // n2 reports the unreadable depfile instead of the output.
+            let text = String::from_utf8_lossy(&task.result.output).to_string();
+            if !text.contains("loomh-bad-depfile") {
+                fail("depfile-error-not-reported", format!("task {} output {:?} does not name the depfile", bid, text));
+            }
+        } else if task.result.output != full {
             fail(
                 "output-bytes",
                 format!("task {} output {:?}, expected {:?}", bid, String::from_utf8_lossy(&task.result.output), String::from_utf8_lossy(&full)),
             );
         }
         let term_ok = match task.result.termination {
-            Termination::Success => !t.fail && !t.interrupt,
-            Termination::Failure => t.fail,
+            Termination::Success => !t.fail && !t.interrupt && !bad,
+            Termination::Failure => t.fail || bad,
             Termination::Interrupted => t.interrupt && !t.fail,
         };
         if !term_ok {
             fail("termination", format!("task {} termination {:?}", bid, task.result.termination));
         }
-        let deps_ok = match (&task.result.discovered_deps, t.msvc) {
+        let deps_ok = t.bad_depfile || match (&task.result.discovered_deps, t.msvc) {
             (None, false) => true,
             (Some(d), true) => {
                 if t.chunks > 0 {
@@ -224,27 +267,11 @@ pub fn body(s: &Scenario) {
         if !deps_ok {
             fail("discovered-deps", format!("task {} deps {:?}", bid, task.result.discovered_deps));
         }
-        // tids distinguish simultaneously live tasks.
-        if task.tid >= s.parallelism {
-            fail("tid-range", format!("task {} got tid {} with parallelism {}", bid, task.tid, s.parallelism));
-        }
-        clock += 1;
-        let started_at = live.iter().find(|l| l.0 == bid).map(|l| l.1).unwrap_or(0);
-        spans.push((started_at, clock, task.tid, bid));
         returned[bid] = true;
         live.retain(|l| l.0 != bid);
-        if runner.running != live.len() {
-            fail("runner-running-count", format!("after wait Runner.running = {} but {} tasks are live", runner.running, live.len()));
-        }
         trace.push_str(&format!("D{} ", bid));
     }
-    for (i, a) in spans.iter().enumerate() {
-        for b in spans.iter().skip(i + 1) {
-            if a.2 == b.2 && a.0 < b.1 && b.0 < a.1 {
-                fail("tid-shared", format!("tasks {} and {} ran simultaneously with the same tid {}", a.3, b.3, a.2));
-            }
-        }
-    }
+    check_over();
     if returned.iter().any(|r| !r) {
         fail("task-lost", format!("returned = {:?}", returned));
     }
